@@ -10,6 +10,9 @@ import Mouette.Lemmas.SubdivVolume2
 import Mouette.Lemmas.SubdivManifold2
 import Mouette.Lemmas.SubdivComplete3
 import Mouette.Lemmas.SubdivComplete9
+import Mouette.Lemmas.SubdivTables2
+import Mouette.Lemmas.SubdivHistory
+import Mouette.Lemmas.SubdivComponents
 /-
 C13 — subdivision refines a mesh without changing its shape or topology.
 
@@ -493,6 +496,105 @@ theorem face_split_pattern_follows_source (m m' : Raw) (fid : Nat) (e : Env) (hi
     (hf : m.faces[fid]? = some (e.face faceUnpack)) (h : splitTetFromFaceCenter m fid = .ok m') :
     m'.faces = m.faces.set fid (e.face faceSet) ++ faceAppend.map e.face :=
   face_split_follows_source m m' fid e hic hf h
+
+/-! ## round 3: histories on one object -/
+
+/-- **The n-th block on a used object equals the same block on a fresh one.** Whatever was cached on the caller's object
+before (connectivity computed from any face list, any corner count), the object after any non-empty sequence of editing
+blocks is the same. -/
+theorem history_independent_of_cached_state (raw : Raw) (k1 k2 : Nat) (c1 c2 : Option (List (List Nat)))
+    (blocks : List (List Op)) (hne : blocks ≠ []) :
+    runBlocksView ⟨raw, k1, c1⟩ blocks = runBlocksView ⟨raw, k2, c2⟩ blocks :=
+  blocks_independent_of_cached_state raw k1 k2 c1 c2 blocks hne
+
+/-- After ANY non-empty history of blocks the object is coherent (corners spell the faces, nothing cached) and its
+containers are exactly the fold the protocol driver computes (operations of a block, `prepare` at every block end). -/
+theorem history_coherent (blocks : List (List Op)) (v v' : View) (hne : blocks ≠ []) (h : runBlocksView v blocks = .ok v') :
+    v'.coherent = true ∧ v'.cache = none ∧ runBlocksRaw v.raw blocks = some v'.raw :=
+  blocks_history blocks v v' hne h
+
+/-! ## round 3: border loops and connected components through the 1→4 refinement
+
+Border loops are the orbits of the successor relation `IsSucc` on border sides; components are the classes of `Conn`
+(reflexive-transitive closure of the symmetric adjacency by directed sides). -/
+
+/-- the successor map: the two halves of a border side follow each other, the second half is followed by the first half of
+the successor side, and there is no other succession in the refined mesh. -/
+theorem border_successor_loop (m m' : Raw) (h : loopOnce m = .ok m') (hes : EdgesSorted m) :
+    (∀ u v mu, IsBorder m (u, v) → halfLookup m.edges m.verts.length (keyify u v) = some mu → IsSucc m' (u, mu) (mu, v)) ∧
+    (∀ u v w mu mw, IsSucc m (u, v) (v, w) → halfLookup m.edges m.verts.length (keyify u v) = some mu →
+        halfLookup m.edges m.verts.length (keyify v w) = some mw → IsSucc m' (mu, v) (v, mw)) ∧
+    (∀ x y, IsSucc m' x y →
+      (∃ u v mu, IsBorder m (u, v) ∧ halfLookup m.edges m.verts.length (keyify u v) = some mu ∧ x = (u, mu) ∧ y = (mu, v)) ∨
+      (∃ u v w mu mw, IsSucc m (u, v) (v, w) ∧ halfLookup m.edges m.verts.length (keyify u v) = some mu ∧
+        halfLookup m.edges m.verts.length (keyify v w) = some mw ∧ x = (mu, v) ∧ y = (v, mw))) :=
+  ⟨fun u v mu hb hl => succ_within_side m m' h hes u v mu hb hl,
+   fun u v w mu mw hs hl hl' => succ_across_sides m m' h hes u v w mu mw hs hl hl',
+   fun x y hs => succ_cases m m' h hes x y hs⟩
+
+/-- **border loops are preserved**: every border side of the refined mesh is a half of exactly one border side of the
+input and every border side of the input has its halves on the border; walks along the border lift (between first halves,
+two steps per step) and project. Hence "lies on the same border loop" is the same relation on both sides: the loops are in
+bijection, a loop of k sides becoming one loop of 2k sides. -/
+theorem border_loops_preserved_loop (m m' : Raw) (h : loopOnce m = .ok m') (hes : EdgesSorted m) :
+    (∀ x, IsBorder m' x ↔ ∃ s, HalfOfBorder m x s) ∧
+    (∀ x s s', HalfOfBorder m x s → HalfOfBorder m x s' → s = s') ∧
+    (∀ s t mu mt, Relation.ReflTransGen (IsSucc m) s t →
+        halfLookup m.edges m.verts.length (keyify s.1 s.2) = some mu →
+        halfLookup m.edges m.verts.length (keyify t.1 t.2) = some mt →
+        Relation.ReflTransGen (IsSucc m') (s.1, mu) (t.1, mt)) ∧
+    (∀ x y s t, Relation.ReflTransGen (IsSucc m') x y → HalfOfBorder m x s → HalfOfBorder m y t →
+        Relation.ReflTransGen (IsSucc m) s t) :=
+  ⟨fun x => border_iff m m' h hes x, fun x s s' h1 h2 => side_unique m hes x s s' h1 h2,
+   fun s t mu mt hw hl hlt => loop_walk_lift m m' h hes s t hw mu mt hl hlt,
+   fun x y s t hw hs ht => loop_walk_project m m' h hes x y hw s t hs ht⟩
+
+/-- **connected components are preserved**: old vertices connected in the input stay connected; two old vertices
+connected in the refined mesh were connected in the input; every vertex on a side of the refined mesh is connected to an old
+vertex. Hence the components of the refined mesh are in bijection with those of the input. -/
+theorem components_preserved_loop (m m' : Raw) (h : loopOnce m = .ok m') (hes : EdgesSorted m) :
+    (∀ a b, Conn m a b → Conn m' a b) ∧
+    (∀ a b, a < m.verts.length → b < m.verts.length → Conn m' a b → Conn m a b) ∧
+    (∀ z w, Adj m' z w → ∃ c, c < m.verts.length ∧ Conn m' w c) :=
+  components_loop m m' h hes
+
+/-! ## round 3: more translated fragments (`Generated/C13Struct.lean`)
+
+The way each new vertex is computed (sum of the element's points divided by `len(f)` / 3 / 2, or scaled by 0.25), the
+numbering of the new vertices (length of the new container before the append) and the order of the passes, the steps of
+`__enter__` / `__exit__`, and the range / index expressions of the fan are re-read from the source on every run. -/
+
+open Mouette.Generated.C13 in
+theorem centres_follow_source (m m' : Raw) :
+    (∀ fid, splitFaceAsFan m fid = .ok m' → ∃ f ps, m.faces[fid]? = some f ∧ pts m f = .ok ps ∧
+        m'.verts = m.verts ++ [centreOf fanDivisor ps]) ∧
+    (∀ cid a b c d, m.cells[cid]? = some [a, b, c, d] → splitCellAsFan m cid = .ok m' →
+        ∃ ps, pts m [a, b, c, d] = .ok ps ∧ m'.verts = m.verts ++ [centreOf cellDivisor ps]) ∧
+    (∀ fid a b c, m.faces[fid]? = some [a, b, c] → splitTetFromFaceCenter m fid = .ok m' →
+        ∃ ps, pts m [a, b, c] = .ok ps ∧ m'.verts = m.verts ++ [centreOf faceCentreDivisor ps]) ∧
+    (∀ p q : Pt, mid p q = centreOf loopMidDivisor [p, q] ∧ mid p q = centreOf quadsMidDivisor [p, q] ∧
+        mid p q = centreOf edgeMidDivisor [p, q]) ∧
+    (∀ bs, baryCentres m = .ok bs → ∀ i (hi : i < m.faces.length), ∃ ps, pts m m.faces[i] = .ok ps ∧
+        bs[i]? = some (centreOf quadsBaryDivisor ps)) :=
+  ⟨fun fid h => fan_centre_follows_source m m' fid h,
+   fun cid a b c d hc h => cell_centre_follows_source m m' cid a b c d hc h,
+   fun fid a b c hf h => face_centre_follows_source m m' fid a b c hf h,
+   fun p q => mid_follows_source p q,
+   fun bs h i hi => quads_bary_follows_source m bs h i hi⟩
+
+open Mouette.Generated.C13 in
+/-- the fan triangles are those of the source's `for k in range(1, nf): append([f[k], f[(k+1)%nf], iV])`, the face that stays
+in place is `[f[0], f[1], iV]` -/
+theorem fan_indices_follow_source (f : List Nat) (iV a b : Nat) (rest : List (Nat × Nat)) (hc : cycPairs f = (a, b) :: rest) :
+    [a, b, iV] = [f.getD 0 0, f.getD (1 % f.length) 0, iV] ∧
+    rest.map (fun ab => [ab.1, ab.2, iV]) =
+      (List.range' fanLo (fanHi f.length - fanLo)).map
+        (fun k => [f.getD (fanFst k f.length) 0, f.getD (fanSnd k f.length) 0, iV]) :=
+  fan_faces_follow_source f iV a b rest hc
+
+open Mouette.Generated.C13 in
+/-- the structural sites were recognised in the shape the model assumes -/
+theorem structure_follows_source : numberingIsRunningLength = true ∧ blockStepsAsModelled = true := ⟨rfl, rfl⟩
 
 /-! ## non-vacuity: the hypotheses are satisfiable by concrete non-trivial meshes -/
 
